@@ -2,18 +2,22 @@
 
 Protocol (one self-contained case per line, see lean/OFCore/OFCore/Drv/Enm.lean):
 
-    enm enc <names> <container> <items>  -> OK <owner> <idx> <dec> <str> <re> <reraw> | ERR
-    enm dec <names> <indices>            -> <dec> <str>
+    enm enc <names> <container> <items>                   -> OK <owner> <idx> <dec> <str> <re> <reraw> | ERR
+    enm sel <names> <container> <items> <how> <positions> -> OK <idx> <dec> <str> | ERR   (decode a selection of the result)
+    enm dec <names> <indices> [<dtype>[.0d]]              -> <dec> <str>
 
 <names>: declaration order, comma separated, a name = dot-joined hex code points.
-<container>: seq.list seq.tuple | int.<dtype> | str.arr | obj.arr | oth.<dtype> | enc.own enc.foreign
-<items>: i<int>[.b] s<name> m<k> g<k> f<k> o.<what>   ('-' = empty)
+<container>: seq.list seq.tuple seq.deque seq.array | int.<dtype>[.strided] | str.arr str.wide str.strided | obj.arr |
+             oth.<dtype> | zd.<dtype> (0-d array) | enc.own[.<dtype>] enc.foreign
+<items>: i<int>[.b] s<name> S<name> (numpy.str_) m<k> g<k> f<k> o.<what>   ('-' = empty)
    m = k-th member of the enumeration E under test, f = k-th member of another enumeration F
    (other class name), g = k-th member of another enumeration G declared under the SAME class
    name as E (EnumType compares classes by name: finding F-C15b).
 """
 from __future__ import annotations
 
+import array
+import collections
 import itertools
 import random
 
@@ -23,7 +27,11 @@ CLS_NAME = "OfvEnum"          # E and its same-name twin G
 OTHER_NAME = "OfvOtherEnum"   # F
 INT_DTYPES = ["int8", "int16", "int32", "int64", "uint8", "uint16", "uint32", "uint64"]
 OTH_DTYPES = ["float64", "float32", "bool", "bytes", "complex128"]
-OTHER_ELEMS = ["float", "none", "bytes", "npint", "npfloat", "tuple"]
+OTHER_ELEMS = ["float", "none", "bytes", "npbytes", "npint", "npuint8", "npfloat", "tuple", "list"]
+SELECTIONS = ["fancy", "fancy", "fancy16", "take", "mask", "mask", "rev", "copy", "view", "astype16", "repeat2", "tile2", "item0d",
+              "slice_1_n_n", "slice_n_-1_n", "slice_n_n_2", "slice_1_n_2", "slice_n_n_-2", "slice_-2_n_n", "slice_2_1_n", "slice_n_n_n"]
+LOOKALIKES = ["a", "\u0430", "A", "\u0391", "\uff21", "\uff41", "e\u0301", "\u00e9", "\ufb01", "fi", "\u00df", "ss", "\u1e9e", "K", "\u212a",
+              "\u03a9", "\u2126", "\u0130", "i", "\u0131", "I", "l", "1", "O", "0", "\u043e", "o", "\u00c5", "\u212b", "A\u030a"]
 RANGES = {"int8": (-2**7, 2**7 - 1), "int16": (-2**15, 2**15 - 1), "int32": (-2**31, 2**31 - 1),
           "int64": (-2**63, 2**63 - 1), "uint8": (0, 2**8 - 1), "uint16": (0, 2**16 - 1),
           "uint32": (0, 2**32 - 1), "uint64": (0, 2**64 - 1)}
@@ -59,6 +67,8 @@ def parse_item(t: str):
         return ("i", int(v), sub)
     if k == "s":
         return ("s", tok_name(rest), "")
+    if k == "S":
+        return ("s", tok_name(rest), "np")
     if k in "mgf":
         return (k, int(rest), "")
     if k == "o":
@@ -70,8 +80,11 @@ def parse_line(line: str):
     f = line.split()
     names = [tok_name(t) for t in read_list(f[2])]
     if f[1] == "dec":
-        return "dec", names, None, [int(t) for t in read_list(f[3])]
-    return "enc", names, f[3], [parse_item(t) for t in read_list(f[4])]
+        return "dec", names, None, [int(t) for t in read_list(f[3])], (f[4] if len(f) > 4 else "uint8")
+    items = [parse_item(t) for t in read_list(f[4])]
+    if f[1] == "sel":
+        return "sel", names, f[3], items, (f[5], [int(t) for t in read_list(f[6])])
+    return "enc", names, f[3], items, None
 
 
 # --------------------------------------------------------------------------------------
@@ -111,29 +124,50 @@ def _obj(item, hit):
     if k == "i":
         return bool(v) if sub == "b" else v
     if k == "s":
-        return v
+        return np.str_(v) if sub == "np" else v
     if k == "m":
         return list(hit[0])[v]
     if k in "fg":
         return list(_foreign(hit, k))[v]
-    return {"float": 0.5, "none": None, "bytes": b"a", "npint": np.int64(0), "npfloat": np.float64(1.0),
-            "tuple": (0,)}[sub or "float"]
+    first = hit[0].names[0]          # bytes / bytes_ elements spell a declared name
+    return {"float": 0.5, "none": None, "bytes": str(first).encode("utf-8"), "npbytes": np.bytes_(str(first).encode("utf-8")),
+            "npint": np.int64(0), "npuint8": np.uint8(0), "npfloat": np.float64(1.0), "tuple": (0,),
+            "list": [0]}[sub or "float"]
 
 
 def build_input(cont: str, items: list, hit):
     import numpy as np
     from openfisca_core import indexed_enums as ie
     head, _, sub = cont.partition(".")
+    sub, _, extra = sub.partition(".")
     if head == "enc":
         owner = hit[0] if sub == "own" else _foreign(hit, "f")
-        return ie.EnumArray(np.array([v for _, v, _ in items], dtype=np.uint8), owner)
+        return ie.EnumArray(np.array([v for _, v, _ in items], dtype=getattr(np, extra or "uint8")), owner)
     if head == "seq":
         objs = [_obj(it, hit) for it in items]
+        if sub == "deque":
+            return collections.deque(objs)
+        if sub == "array":
+            return array.array("q", objs)
         return tuple(objs) if sub == "tuple" else objs
     if head == "int":
+        if extra == "strided":
+            return np.array([w for _, v, _ in items for w in (v, 0)], dtype=getattr(np, sub))[::2]
         return np.array([v for _, v, _ in items], dtype=getattr(np, sub))
     if head == "str":
-        return np.array([v for _, v, _ in items], dtype=np.str_)
+        vals = [v for _, v, _ in items]
+        if sub == "wide":
+            return np.array(vals, dtype="<U40")
+        if sub == "strided":
+            return np.array([w for v in vals for w in (v, "pad")], dtype=np.str_)[::2]
+        return np.array(vals, dtype=np.str_)
+    if head == "zd":
+        (it,) = items
+        if sub == "obj":
+            a = np.empty((), dtype=object)
+            a[()] = _obj(it, hit)
+            return a
+        return np.array(_obj(it, hit), dtype=None if sub == "str" else getattr(np, sub))
     if head == "obj":
         a = np.empty(len(items), dtype=object)
         for j, it in enumerate(items):
@@ -142,7 +176,7 @@ def build_input(cont: str, items: list, hit):
     if head == "oth":
         n = len(items)
         if sub == "bytes":
-            return np.array([b"a"] * n, dtype=np.bytes_)
+            return np.array([str(hit[0].names[0]).encode("utf-8")] * n, dtype=np.bytes_)
         if sub == "bool":
             return np.zeros(n, dtype=np.bool_)
         return np.zeros(n, dtype=getattr(np, sub))
@@ -161,25 +195,93 @@ def _show_decoded(arr, hit) -> tuple:
     return dec, st
 
 
+def select(r, how: str, positions: list):
+    """the numpy spelling `how` of selecting `positions` from the encoded array"""
+    import numpy as np
+    from openfisca_core import indexed_enums as ie
+    if how == "fancy":
+        return r[np.array(positions, dtype=np.intp)]
+    if how == "fancy16":
+        return r[np.array(positions, dtype=np.int16)]
+    if how == "take":
+        return r.take(np.array(positions, dtype=np.intp))
+    if how == "mask":
+        m = np.zeros(len(r), dtype=bool)
+        m[positions] = True
+        return r[m]
+    if how.startswith("slice_"):
+        a, b, c = (None if t == "n" else int(t) for t in how.split("_")[1:])
+        return r[a:b:c]
+    if how == "rev":
+        return r[::-1]
+    if how == "copy":
+        return r.copy()
+    if how == "view":
+        return r.view(ie.EnumArray)
+    if how == "astype16":
+        return r.astype(np.int16)
+    if how == "repeat2":
+        return np.repeat(r, 2)
+    if how == "tile2":
+        return np.tile(r, 2)
+    if how == "item0d":
+        return r[positions[0]:positions[0] + 1].reshape(())
+    raise ValueError("bad selection " + how)
+
+
+def positions_of(how: str, length: int, rng: random.Random) -> list:
+    """positions selected by the spelling `how` on an array of that length"""
+    idx = list(range(length))
+    if how in ("fancy", "fancy16", "take"):
+        return [rng.randrange(length) for _ in range(rng.choice([0, 1, 2, length, length + 2]))] if length else []
+    if how == "mask":
+        return [j for j in idx if rng.random() < 0.5]
+    if how.startswith("slice_"):
+        a, b, c = (None if t == "n" else int(t) for t in how.split("_")[1:])
+        return idx[a:b:c]
+    if how == "rev":
+        return idx[::-1]
+    if how in ("copy", "view", "astype16"):
+        return idx
+    if how == "repeat2":
+        return [j for j in idx for _ in (0, 1)]
+    if how == "tile2":
+        return idx + idx
+    if how == "item0d":
+        return [rng.randrange(length)]
+    raise ValueError(how)
+
+
 def _indices(arr) -> str:
     import numpy as np
-    return show_list(int(v) for v in np.asarray(arr))
+    return show_list(int(v) for v in np.ravel(np.asarray(arr)))
 
 
 def impl(case: Case) -> str:
     import numpy as np
     from openfisca_core import indexed_enums as ie
-    op, names, cont, items = parse_line(case.line)
+    op, names, cont, items, extra = parse_line(case.line)
     hit = enums_for(tuple(names))
     E = hit[0]
     if op == "dec":
-        arr = ie.EnumArray(np.array(items, dtype=np.uint8), E)
+        dt, _, shape = extra.partition(".")
+        raw = np.array(items[0] if shape == "0d" else items, dtype=getattr(np, dt))
+        arr = ie.EnumArray(raw, E)
         return " ".join(_show_decoded(arr, hit))
     x = build_input(cont, items, hit)
     try:
         r = E.encode(x)
     except Exception:
         return "ERR"
+    if op == "sel":
+        how, positions = extra
+        try:
+            r2 = select(r, how, positions)
+        except Exception:
+            return "ERR"
+        if not isinstance(r2, ie.EnumArray) or r2.possible_values is not E:
+            return "LOST " + type(r2).__name__
+        return f"OK {_indices(r2)} {' '.join(_show_decoded(r2, hit))}"
     own = r.possible_values is E
     dec, st = _show_decoded(r, hit) if own else ("~", "~")
     try:
@@ -216,8 +318,10 @@ def _designated(item, n: int, pos: dict):
 
 
 def oracle(case: Case, out: str):
-    op, names, cont, items = parse_line(case.line)
+    op, names, cont, items, extra = parse_line(case.line)
     n = len(names)
+    if n > 200:
+        return None            # the property quantifies over enumerations of 1..200 members
     if op == "dec":
         if all(i < n for i in items):
             want = f"{show_list(items)} {show_list(name_tok(names[i]) for i in items)}"
@@ -227,7 +331,7 @@ def oracle(case: Case, out: str):
     pos = {nm: k for k, nm in enumerate(names)}
     head = cont.split(".")[0]
     if head == "enc":
-        if cont == "enc.own" and all(v < n for _, v, _ in items):
+        if op == "enc" and cont.startswith("enc.own") and all(v < n for _, v, _ in items):
             idx = show_list(v for _, v, _ in items)
             f = out.split()
             if len(f) != 7 or f[:3] != ["OK", "own", idx] or f[5] != idx or f[6] != idx:
@@ -237,12 +341,23 @@ def oracle(case: Case, out: str):
             if f[4] != show_list(name_tok(names[v]) for _, v, _ in items):
                 return ("decode-to-str-mismatch", f"decode_to_str() gave {f[4]}")
         return None
+    des = [_designated(it, n, pos) for it in items]
+    reasons = [d for d in des if isinstance(d, str)]
+    if op == "sel":
+        kinds = {it[0] for it in items}
+        if reasons or not ((head in ("seq", "int", "str") and len(kinds) <= 1) or (head == "obj" and kinds <= {"m"})):
+            return None
+        if out.startswith("LOST"):
+            return ("selection-lost-enumeration", f"{extra[0]} of an encoded array is no EnumArray of the enumeration: {out}")
+        sel = [des[p] for p in extra[1]]
+        want = f"OK {show_list(sel)} {show_list(sel)} {show_list(name_tok(names[d]) for d in sel)}"
+        if out != want:
+            return ("selection-decode-mismatch", f"decoding the selection {extra[0]} {extra[1]} gave {out}, expected {want}")
+        return None
     if not items:
         if head in ("seq", "int", "str", "obj") and out != "OK own - - - - -":
             return ("empty-input", f"empty {cont} gave {out}")
         return None
-    des = [_designated(it, n, pos) for it in items]
-    reasons = [d for d in des if isinstance(d, str)]
     if reasons:
         if out == "ERR":
             return None
@@ -292,8 +407,18 @@ def _mk(names, cont, items, claimed=True, tags=()):
     return Case(line=line, claimed=claimed, tags=(cont,) + tuple(tags))
 
 
-def _mkdec(names, idx, claimed=True):
-    return Case(line=f"enm dec {show_list(name_tok(s) for s in names)} {show_list(idx)}", claimed=claimed, tags=("dec",))
+def _mkdec(names, idx, claimed=True, dtype=None):
+    line = f"enm dec {show_list(name_tok(s) for s in names)} {show_list(idx)}" + (f" {dtype}" if dtype else "")
+    return Case(line=line, claimed=claimed, tags=("dec",) + ((dtype,) if dtype else ()))
+
+
+def _mksel(names, cont, items, how, positions, tags=()):
+    line = f"enm sel {show_list(name_tok(s) for s in names)} {cont} {show_list(items)} {how} {show_list(positions)}"
+    return Case(line=line, tags=("sel", how) + tuple(tags))
+
+
+def _dtype_holding(rng: random.Random, top: int) -> str:
+    return rng.choice([d for d in INT_DTYPES if RANGES[d][1] >= top])
 
 
 def _safe(nm: str) -> str:
@@ -306,7 +431,15 @@ def _safe(nm: str) -> str:
 
 
 def gen_names(rng: random.Random, n: int) -> list:
-    style = rng.choice(["m", "m", "rand", "rand", "rand", "prefix", "sorted", "reversed"])
+    style = rng.choice(["m", "m", "rand", "rand", "rand", "prefix", "sorted", "reversed", "lookalike"])
+    if style == "lookalike":        # names that render alike but are different strings
+        seen, names = set(), []
+        while len(names) < n:
+            nm = _safe("".join(rng.choice(LOOKALIKES) for _ in range(rng.choice([1, 1, 2, 3] if n < 100 else [2, 3]))))
+            if nm not in seen:
+                seen.add(nm)
+                names.append(nm)
+        return names
     if style == "m":
         names = [f"m{j}" for j in range(n)]
         rng.shuffle(names)
@@ -368,35 +501,68 @@ def cases_for_enum(rng: random.Random, names: list, budget: int) -> list:
         return items
 
     while len(out) < budget:
-        cat = rng.choice(["names"] * 4 + ["ints"] * 4 + ["members"] * 3 + ["badname"] * 3 + ["badint"] * 5 +
-                         ["foreign"] * 3 + ["mixed"] * 2 + ["other"] * 2 + ["empty", "enc", "bool", "bigint", "dec", "twin"])
+        if n > 200:
+            cat = rng.choice(["names", "ints", "members", "badname", "badint", "sel", "dec"])
+        else:
+            cat = rng.choice(["names"] * 4 + ["ints"] * 4 + ["members"] * 3 + ["badname"] * 3 + ["badint"] * 5 +
+                             ["foreign"] * 3 + ["mixed"] * 2 + ["other"] * 2 + ["sel"] * 3 +
+                             ["empty", "enc", "bool", "bigint", "dec", "dec", "twin", "zd"])
         if cat == "names":
-            items = ["s" + name_tok(names[i]) for i in idxs()]
-            out.append(_mk(names, rng.choice(["seq.list", "seq.tuple", "str.arr", "str.arr"]), items, tags=("valid-names",)))
+            cont = rng.choice(["seq.list", "seq.tuple", "seq.deque", "str.arr", "str.arr", "str.wide", "str.strided"])
+            mark = rng.choice(["s", "s", "S", "sS"]) if cont.startswith("seq") else "s"
+            items = [rng.choice(mark) + name_tok(names[i]) for i in idxs()]
+            out.append(_mk(names, cont, items, tags=("valid-names",)))
         elif cat == "ints":
-            dt = rng.choice(INT_DTYPES + ["list", "tuple"])
-            if dt in ("list", "tuple"):
+            dt = rng.choice(INT_DTYPES + ["list", "tuple", "deque", "array"])
+            if dt in ("list", "tuple", "deque", "array"):
                 out.append(_mk(names, "seq." + dt, [f"i{i}" for i in idxs()], tags=("valid-ints",)))
             else:
                 top = min(n - 1, RANGES[dt][1])
                 k = _len(rng, n)
                 vals = [rng.choice([0, top, rng.randint(0, top)]) for _ in range(k)]
-                out.append(_mk(names, "int." + dt, [f"i{v}" for v in vals], tags=("valid-ints",)))
+                out.append(_mk(names, "int." + dt + rng.choice(["", "", ".strided"]), [f"i{v}" for v in vals], tags=("valid-ints",)))
         elif cat == "members":
-            out.append(_mk(names, rng.choice(["seq.list", "seq.tuple", "obj.arr", "obj.arr"]), [f"m{i}" for i in idxs()],
+            out.append(_mk(names, rng.choice(["seq.list", "seq.tuple", "seq.deque", "obj.arr", "obj.arr"]), [f"m{i}" for i in idxs()],
                            tags=("valid-members",)))
+        elif cat == "sel":
+            kind = rng.choice(["names", "ints", "members"])
+            ix = idxs(rng.choice([1, 2, 3, 4, 5, 8, min(n, 30)]))
+            if kind == "names":
+                cont, items = rng.choice(["seq.list", "str.arr"]), ["s" + name_tok(names[i]) for i in ix]
+            elif kind == "ints":
+                cont, items = rng.choice(["seq.list", "int." + _dtype_holding(rng, max(ix))]), [f"i{i}" for i in ix]
+            else:
+                cont, items = rng.choice(["seq.list", "obj.arr"]), [f"m{i}" for i in ix]
+            how = rng.choice(SELECTIONS)
+            out.append(_mksel(names, cont, items, how, positions_of(how, len(ix), rng), tags=(kind,)))
+        elif cat == "zd":
+            what = rng.choice(["int", "int", "badint", "str", "obj", "float"])
+            if what == "int":
+                dt = rng.choice(INT_DTYPES)
+                out.append(_mk(names, "zd." + dt, [f"i{rng.randint(0, min(n - 1, RANGES[dt][1]))}"], tags=("zero-dim",)))
+            elif what == "badint":
+                out.append(_mk(names, "zd.int64", [f"i{rng.choice([-1, n, 255])}"], tags=("zero-dim",)))
+            elif what == "str":
+                out.append(_mk(names, "zd.str", ["s" + name_tok(rng.choice(names))], tags=("zero-dim",)))
+            elif what == "obj":
+                out.append(_mk(names, "zd.obj", [f"m{rng.randrange(n)}"], tags=("zero-dim",)))
+            else:
+                out.append(_mk(names, "zd.float64", ["o.float"], tags=("zero-dim",)))
         elif cat == "badname":
             good = ["s" + name_tok(names[i]) for i in idxs(rng.choice([0, 1, 2, 5, n]))]
             bad = ["s" + name_tok(u) for u in rng.sample(unk, min(2, len(unk)))]
-            out.append(_mk(names, rng.choice(["seq.list", "seq.tuple", "str.arr", "str.arr"]), spoil(good, bad), tags=("bad-name",)))
+            out.append(_mk(names, rng.choice(["seq.list", "seq.tuple", "seq.deque", "str.arr", "str.arr", "str.wide", "str.strided"]),
+                           spoil(good, bad), tags=("bad-name",)))
         elif cat == "badint":
-            dt = rng.choice(INT_DTYPES + ["list", "list", "tuple"])
-            lo, hi = RANGES[dt] if dt in RANGES else (-2**63, 2**64 - 1)
+            dt = rng.choice(INT_DTYPES + ["list", "list", "tuple", "deque", "array"])
+            lo, hi = RANGES[dt] if dt in RANGES else (RANGES["int64"] if dt == "array" else (-2**63, 2**64 - 1))
             bads = _bad_ints(rng, n, lo, hi)
+            if not bads:
+                continue
             rng.shuffle(bads)
             top = min(n - 1, hi)
             good = [f"i{rng.randint(0, top)}" for _ in range(rng.choice([0, 1, 2, 5, n]))]
-            cont = "int." + dt if dt in RANGES else "seq." + dt
+            cont = "int." + dt + rng.choice(["", "", ".strided"]) if dt in RANGES else "seq." + dt
             out.append(_mk(names, cont, spoil(good, [f"i{b}" for b in bads]), tags=("bad-int", "neg" if bads[0] < 0 else "big")))
         elif cat == "foreign":
             shape = rng.choice(["all", "own-first", "foreign-first", "middle"])
@@ -434,7 +600,8 @@ def cases_for_enum(rng: random.Random, names: list, budget: int) -> list:
         elif cat == "enc":
             r = rng.random()
             if r < 0.6:
-                out.append(_mk(names, "enc.own", [f"i{i}" for i in idxs()], tags=("encoded",)))
+                ix = idxs()
+                out.append(_mk(names, "enc.own." + _dtype_holding(rng, max(ix)), [f"i{i}" for i in ix], tags=("encoded",)))
             elif r < 0.8 and n < 255:
                 items = [f"i{i}" for i in idxs(2)] + [f"i{rng.choice([n, 255, rng.randint(n, 255)])}"]
                 out.append(_mk(names, "enc.own", items, claimed=False, tags=("encoded-handmade-invalid",)))
@@ -450,9 +617,18 @@ def cases_for_enum(rng: random.Random, names: list, budget: int) -> list:
             out.append(_mk(names, "seq.list", items, claimed=False, tags=("bigint",)))
         elif cat == "dec":
             if rng.random() < 0.8 or n >= 255:
-                out.append(_mkdec(names, idxs()))
+                ix = idxs()
+                dt = _dtype_holding(rng, max(ix))
+                if rng.random() < 0.15:
+                    out.append(_mkdec(names, ix[:1], dtype=dt + ".0d"))
+                else:
+                    out.append(_mkdec(names, ix, dtype=rng.choice([None, dt]) if max(ix) <= 255 else dt))
             else:
                 out.append(_mkdec(names, idxs(2) + [rng.choice([n, 255])], claimed=False))
+    if n > 200:                 # outside the property's quantifier: answered, never binding
+        for c in out:
+            c.claimed = False
+            c.tags += ("n>200",)
     return out
 
 
@@ -465,6 +641,8 @@ def generate(rng: random.Random, tier: str):
     out = []
     while len(out) < total:
         n = rng.choice(SIZES + [rng.randint(1, 200)])
+        if rng.random() < 0.015:
+            n = rng.choice([201, 255, 256, 257, 300])
         names = gen_names(rng, n)
         out += cases_for_enum(rng, names, per_enum)
     return out[:total]
@@ -510,10 +688,21 @@ def enumerate_thorough():
         for dt in OTH_DTYPES:
             for L in range(0, 4):
                 out.append(_mk(names, "oth." + dt, ["o"] * L, tags=("enum",)))
+        rsel = random.Random(15)
         for L in range(0, 4):
             for combo in itertools.product(range(n), repeat=L):
                 out.append(_mk(names, "enc.own", [f"i{v}" for v in combo], tags=("enum",)))
                 out.append(_mkdec(names, list(combo)))
+                for dt in ("int8", "int16", "uint64"):
+                    out.append(_mkdec(names, list(combo), dtype=dt))
+                    out.append(_mk(names, "enc.own." + dt, [f"i{v}" for v in combo], tags=("enum",)))
+                if L:
+                    for how in sorted(set(SELECTIONS)):
+                        out.append(_mksel(names, "obj.arr", [f"m{v}" for v in combo], how, positions_of(how, L, rsel), tags=("enum",)))
+        for item in _elem_universe(names):
+            out.append(_mk(names, "zd." + {"i": "int64", "s": "str", "m": "obj", "f": "obj", "o": "float64"}[item[0]], [item], tags=("enum",)))
+        for k in range(n):
+            out.append(_mkdec(names, [k], dtype="int32.0d"))
     return out
 
 
@@ -548,6 +737,27 @@ def corpus():
         _mk([f"m{j}" for j in range(199, -1, -1)], "int.uint8", ["i199", "i200", "i0"]),
         _mk([f"m{j}" for j in range(200)], "str.arr", ["s" + name_tok("m10"), "s" + name_tok("m2"), "s" + name_tok("m199")]),
         _mkdec(three, [2, 0, 1]),
+        _mkdec(three, [2, 0, 1], dtype="int16"),
+        _mkdec(three, [2], dtype="int64.0d"),
+        _mk(three, "enc.own.int16", ["i2", "i0"]),
+        _mk(three, "zd.int64", ["i1"]),
+        _mk(three, "zd.str", ["s61"]),
+        _mk(three, "seq.deque", ["S61", "s63"]),
+        _mk(three, "seq.array", ["i2", "i0"]),
+        _mk(three, "seq.array", ["i2", "i-1"]),
+        _mk(three, "int.int16.strided", ["i2", "i0", "i1"]),
+        _mk(three, "str.strided", ["s63", "s61"]),
+        _mk(three, "seq.list", ["o.bytes"]),
+        _mk(three, "oth.bytes", ["o"]),
+        _mk(["a", "\u0430", "A", "\u0391", "e\u0301", "\u00e9", "\u2126", "\u03a9", "\u212a", "K"], "str.arr",
+            ["s" + name_tok(x) for x in ["\u0430", "a", "\u03a9", "\u2126", "\u00e9", "e\u0301", "K", "\u212a"]]),
+        _mk(["a", "\u0430"], "seq.list", ["s" + name_tok("\u0251")]),
+        _mksel(three, "seq.list", ["s63", "s61", "s62", "s61"], "fancy", [3, 3, 0]),
+        _mksel(three, "seq.list", ["s63", "s61", "s62", "s61"], "mask", [0, 2]),
+        _mksel(three, "obj.arr", ["m2", "m1", "m0"], "rev", [2, 1, 0]),
+        _mksel(three, "int.int8", ["i2", "i1", "i0"], "slice_1_n_n", [1, 2]),
+        _mksel(three, "int.int8", ["i2", "i1", "i0"], "view", [0, 1, 2]),
+        _mksel(three, "int.int8", ["i2", "i1", "i0"], "item0d", [1]),
     ]
     return out
 
@@ -556,6 +766,7 @@ def neighbours(case: Case):
     f = case.line.split()
     if f[1] != "enc":
         return []
+    f = f[:5]
     items = read_list(f[4])
     out = []
     for j in range(len(items)):
